@@ -416,7 +416,7 @@ def run_check(prop, tier, seed):
     with BuildLock():
         gen = regenerate_gen()
         for fn, err in gen.items():
-            if err and fn in getattr(prop, "gen_files", []):
+            if err and not str(err).startswith("inferred:") and fn in getattr(prop, "gen_files", []):
                 broken.append({"kind": "translator", "file": fn, "error": err})
         cov["translator"] = {k: ("ok" if v is None else v) for k, v in gen.items() if k in getattr(prop, "gen_files", [])}
         bad = forbidden_constructs()
